@@ -215,10 +215,11 @@ const (
 	mustAccept = iota
 	mustReject
 	either
+	knownGap // ineligible by the statement, reported under its own signature (see known_findings.json)
 )
 
 func verdictName(v int) string {
-	return [...]string{"MUST_ACCEPT", "MUST_REJECT", "EITHER"}[v]
+	return [...]string{"MUST_ACCEPT", "MUST_REJECT", "EITHER", "MUST_REJECT(known-gap)"}[v]
 }
 
 // model is the Parlia-lite reference: what a client that was created at
@@ -237,6 +238,10 @@ type model struct {
 
 	signers map[uint64]common.Address // who sealed every block since the anchor (ground truth)
 	recents map[uint64]common.Address // Parlia's bounded recent-signer table
+	// kept is the recent-signer table of a client that prunes with the window of the set in force AFTER the
+	// block (what the statement needs: at a growing switch the entry that the old, smaller window would drop
+	// on the switch block is still inside the new window and must be remembered)
+	kept map[uint64]common.Address
 	roots   map[uint64][]byte         // state root per accepted height
 	history []*bsctypes.Header        // last few accepted headers (for replay mutants)
 
@@ -260,6 +265,10 @@ func (m *model) clone() *model {
 	for k, v := range m.roots {
 		c.roots[k] = v
 	}
+	c.kept = make(map[uint64]common.Address, len(m.kept)+1)
+	for k, v := range m.kept {
+		c.kept[k] = v
+	}
 	c.history = append([]*bsctypes.Header{}, m.history...)
 	return &c
 }
@@ -273,6 +282,17 @@ func (m *model) window() uint64 { return uint64(len(m.cur) / 2) }
 // blocks" (strict) and whether Parlia's own bounded table still remembers it
 // (after the set grew, Parlia has forgotten blocks that the larger window
 // would cover – those cases are not judged).
+// keptRecently: an entry of a (within the window) survives in the table pruned with the post-block window.
+func (m *model) keptRecently(a common.Address, number uint64) bool {
+	limit := m.window() + 1
+	for seen, s := range m.kept {
+		if s == a && seen+limit > number {
+			return true
+		}
+	}
+	return false
+}
+
 func (m *model) signedRecently(a common.Address, number uint64) (strict, parlia bool) {
 	w := m.window()
 	for k := uint64(1); k <= w && k <= number; k++ {
@@ -352,7 +372,8 @@ func (m *model) judge(h *bsctypes.Header) (int, string) {
 		return mustReject, "signer/not-in-set"
 	}
 	strict, parlia := m.signedRecently(signer, number)
-	if strict && parlia {
+	kept := m.keptRecently(signer, number)
+	if strict && (parlia || kept) {
 		return mustReject, "signer/recently-signed"
 	}
 	diff := new(big.Int).SetBytes(h.Difficulty)
@@ -360,8 +381,10 @@ func (m *model) judge(h *bsctypes.Header) (int, string) {
 		return mustReject, "difficulty/turn"
 	}
 	// everything the statement names holds; what is left is not pinned by it
-	if strict && !parlia {
-		return either, "signer/recent-but-forgotten-after-growth"
+	if strict && !parlia && !kept {
+		// sealed one of the last floor(N/2) blocks of the NEW set, but that block had already left the old, smaller
+		// window before the switch: by the statement ineligible, yet no bounded table (nor upstream Parlia) remembers it
+		return knownGap, "signer/recent-but-pruned-under-smaller-window-before-growing-switch"
 	}
 	if isEpoch && listBytes == 0 {
 		return either, "extra/epoch-empty-list"
@@ -391,6 +414,10 @@ func (m *model) apply(h *bsctypes.Header) {
 	}
 	m.recents[number] = signer
 	m.signers[number] = signer
+	if m.kept == nil {
+		m.kept = map[uint64]common.Address{}
+	}
+	m.kept[number] = signer
 	m.roots[number] = append([]byte{}, h.Root...)
 	if number%m.epoch == 0 {
 		m.pend = parseList(h.Extra)
@@ -411,6 +438,13 @@ func (m *model) apply(h *bsctypes.Header) {
 			m.switches++
 		}
 		m.cur = append([]common.Address{}, m.pend...)
+	}
+	// prune kept with the window of the set in force after this block (shrinking switches drop the surplus at once)
+	keepLimit := uint64(len(m.cur)/2 + 1)
+	for seen := range m.kept {
+		if seen+keepLimit <= number {
+			delete(m.kept, seen)
+		}
 	}
 	m.head = h
 	m.headHash = blockHash(h)
